@@ -104,13 +104,26 @@ pub fn impl_builder(ops: &[Op], probe_fns: &[String], probe_syms: &[String]) -> 
         for (i, s) in probe_syms.iter().enumerate() {
             b = b.with_rule(Rule::new(format!("\u{1}probe-sym-{}", i), BTreeMap::new(), Expr::Symbol(s.clone()))).expect("probe rule");
         }
+        // … and under its own name as written in rule text: where the text `name(i1)` is accepted by the parser at all
+        // (the lexer's identifiers are a subset of the builder's), it must reach the same function
+        for (i, f) in probe_fns.iter().enumerate() {
+            if let Ok(e) = Expr::parse(&format!("{}(i1)", f)) {
+                b = b.with_rule(Rule::new(format!("\u{1}probe-fntext-{}", i), BTreeMap::new(), e)).expect("probe rule");
+            }
+        }
         let rs = b.build();
         let outs = block_on(rs.evaluate_value(&Value::None)).expect("evaluate_value");
         let mut rules = vec![];
         let mut fns = BTreeSet::new();
         let mut syms = BTreeMap::new();
+        let mut text_results: BTreeMap<usize, bool> = BTreeMap::new();
         for o in &outs {
             let name = o.rule.name();
+            if let Some(rest) = name.strip_prefix("\u{1}probe-fntext-") {
+                let i = rest.parse::<usize>().unwrap();
+                text_results.insert(i, matches!(&o.value, Ok(Value::String(s)) if s == &probe_fns[i]));
+                continue;
+            }
             if let Some(rest) = name.strip_prefix("\u{1}probe-fn-") {
                 let f = &probe_fns[rest.parse::<usize>().unwrap()];
                 if let Ok(Value::String(s)) = &o.value {
@@ -133,6 +146,8 @@ pub fn impl_builder(ops: &[Op], probe_fns: &[String], probe_syms: &[String]) -> 
             fns.iter().map(|n| format!(" {}", hex(n))).collect::<String>(),
             syms.iter().map(|(k, v)| format!(" ({} {})", hex(k), enc_value(v))).collect::<String>()
         );
+        let not_from_text: Vec<String> = text_results.iter().filter(|(i, ok)| fns.contains(&probe_fns[**i]) && !**ok).map(|(i, _)| hex(&probe_fns[*i])).collect();
+        let fin = if not_from_text.is_empty() { fin } else { format!("{}\t(accepted-but-rule-text-reaches-something-else {})", fin, not_from_text.join(" ")) };
         BuilderRun { steps, fin: Some(fin) }
     }))
     .map_err(|p| format!("PANIC {}", panic_msg(p)))
@@ -159,6 +174,11 @@ pub fn candidate_names() -> Vec<String> {
         v.push(k.to_uppercase());
     }
     for base in ["a", "ab", "a1", "_", "_a", "__", "_1", "A", "aB", "a_b", "f", "i1", "d5", "f1e5", "x9_", "i18n", "i2c_read", "f1_score", "f64_bits", "d3_layout", "d20roll", "i1_0", "finf", "fNaN", "Year", "INT", "Int", "isNone", "DateTime", "upper", "lower", "to_uppercase", "date", "time", "is", "to", "not", "ceil", "abs"] {
+        v.push(base.to_string());
+    }
+    // names a later release might turn into a built-in or an operator: today they are ordinary function names, invocable
+    // from rule text under exactly that name
+    for base in ["len", "length", "size", "count", "sum", "min", "max", "avg", "sqrt", "pow", "exp", "log", "sign", "ceiling", "truncate", "now", "today", "string", "str", "bool", "boolean", "number", "matches", "starts_with", "ends_with", "startswith", "split", "join", "replace", "substring", "concat", "any", "all", "map", "filter", "keys", "values", "first", "last", "is_empty", "empty", "coalesce", "default", "format", "parse", "type_of", "exists", "between", "like", "xor", "mod", "div", "weekday", "millisecond", "timestamp", "days", "hours", "weeks", "months", "years", "list", "vec", "dict", "set", "len_", "lenx"] {
         v.push(base.to_string());
     }
     for bad in ["", "1", "1a", "9_", " a", "a ", "a b", "a-b", "a.b", "a(b", "-", "- a"] {
